@@ -22,7 +22,7 @@ P = {
         "C15_no_forwarded_passthrough", "C15_forwarded_extended_by_peer", "C15_header_names_any_casing",
         "C15_spec_holds",
         "C15_F1_pinned_refuted", "C15_F4_pinned_refuted", "C15_F2_refuted", "C15_F3_refuted", "C15_F5_refuted",
-        "C15_F6_refuted", "C15_F7_refuted", "C15_F8_observed_refuted",
+        "C15_F6_refuted", "C15_F7_refuted", "C15_F8_observed_refuted", "C15_F9_refuted",
         "C15_nonvacuous",
     ],
     "streams": [{
@@ -30,7 +30,7 @@ P = {
         "overlay": {"internal/handler/proxy/zz_verif_c15_test.go": "c15/c15_test.go"},
         "eval_module": "Run.Eval_C15", "check_term": "check repaired2",
         "n_quick": 1200, "n_thorough": 30000, "shard": 150,
-        "findings": {2: "C15-F2", 3: "C15-F3", 5: "C15-F5", 8: "C15-F8"},
+        "findings": {2: "C15-F2", 3: "C15-F3", 5: "C15-F5", 8: "C15-F8", 9: "C15-F9"},
     }, {
         "name": "units", "pkg": "./internal/rules/config", "test": "TestVerifC15Units",
         "overlay": {"internal/rules/config/zz_verif_c15_units_test.go": "c15/c15_units_test.go"},
@@ -42,7 +42,7 @@ P = {
         "overlay": dict(ASSEMBLY_OVERLAY, **{"internal/zzverif/c15e2e/c15_e2e_test.go": "c15/c15_e2e_test.go"}),
         "eval_module": "Run.Eval_C15", "check_term": "check repaired2",
         "n_quick": 400, "n_thorough": 6000, "shard": 150,
-        "findings": {2: "C15-F2", 3: "C15-F3", 5: "C15-F5", 8: "C15-F8"},
+        "findings": {2: "C15-F2", 3: "C15-F3", 5: "C15-F5", 8: "C15-F8", 9: "C15-F9"},
     }],
     "rule": "Stream proxy (in-package): requests written byte for byte over TCP or TLS (request target of 1-4 segments built from words, "
             "percent-escapes of reserved / unreserved / non-ASCII bytes in either hex case, reserved literals, bytes net/url re-encodes, broken "
